@@ -80,6 +80,7 @@ func (txn *Txn) rangeWrite(fn func(commitID uint64, chunk commit.Chunk, fill bit
 	txn.dirty.Range(func(x uint32) {
 		chunk := commit.Chunk(x)
 		commitID := commit.Next()
+		verifYield(1, uint64(chunk))
 		lock.Lock(uint(chunk))
 
 		// Compute the fill and set the last commit ID
@@ -91,5 +92,6 @@ func (txn *Txn) rangeWrite(fn func(commitID uint64, chunk commit.Chunk, fill bit
 		// Call the delegate
 		fn(commitID, chunk, fill)
 		lock.Unlock(uint(chunk))
+		verifYield(2, uint64(chunk))
 	})
 }
